@@ -868,6 +868,10 @@ def wseq_method(ctx, r, s, name, args, kwargs):
         wseq_store(ctx, s, s["hi"], args[0])
         s["hi"] = s["hi"] + 1
         return None
+    if name == "appendleft" and s.get("kind2") == "deque":
+        s["lo"] = s["lo"] - 1
+        wseq_store(ctx, s, s["lo"], args[0])
+        return None
     if name == "popleft":
         if not ctx.branch(s["hi"] > s["lo"], "nonempty"):
             raise py_exc(IndexError, "pop from an empty deque")
